@@ -44,10 +44,7 @@ pub fn maps(ctx: &Ctx) -> Stats {
             st.violate("posmap.inverse_size", format!("k={}: index-to-k-mer map has {} entries, expected {}", k, pos_kmer.len(), closed), case(Json::Null));
             bad = true;
         }
-        if pos_map.len() != 1usize << (2 * k) {
-            st.violate("posmap.table_size", format!("k={}: k-mer-to-index table has {} entries, expected 4^k = {}", k, pos_map.len(), 1usize << (2 * k)), case(Json::Null));
-            bad = true;
-        }
+        // (the size of the k-mer-to-index table and its entries at non-canonical codes are unspecified)
         let header = guarded(|| OligoComputer::new("unused.fa".into(), "unused.out".into(), k).verif_get_header());
         for (rank, &code) in reference.iter().enumerate() {
             st.case(true, mix(code) ^ mix(1000 + k as u64));
